@@ -125,7 +125,14 @@ func readV2Header(buf []byte, r io.Reader) (*Header, error) {
 		case 0x31, 0x32: // Unix socket (TCP/UDP)
 			// Not implemented by haproxy and I see no need to implement it here, patches welcome!
 			return &h, errors.New("received UNIX socket proxy command, Currently not supported")
+		default:
+			// AF_UNSPEC or an unassigned family carries no usable addresses: the
+			// receiver uses the real endpoint addresses, as for LOCAL.
+			h.IsLocal = true
 		}
+	default:
+		// Unassigned commands must not be accepted.
+		return nil, fmt.Errorf("unsupported command '%X'", buf[12]&0x0F)
 	}
 
 	// If there is trailing data, it should be TLVs
